@@ -24,9 +24,20 @@ R3 scope bookkeeping of `NamesStack`:
    b. `delete_name` must not raise for a name that `__contains__` reports (callers guard with `name in self.names`,
       which searches every scope, while the removal touches only the innermost one);
    c. alias registration and parameter shadowing must not go through the same operation while `global_names()`
-      subtracts every inner scope (an alias created inside a function body is otherwise read as a shadow).
+      subtracts every inner scope (an alias created inside a function body is otherwise read as a shadow);
+   d. the *queries* of `NamesStack` (every method that returns a value: `global_names`, `__contains__`) leave the scope
+      stack unchanged.  The listener evaluates them inside its tests, once per member access; a query that subtracts the
+      inner scopes from the live global scope instead of a copy deletes a shadowed tracked name for the rest of the
+      expression.  Decided by a may-alias analysis of the method (`_Alias`): `self.<state attribute>` (attributes bound in
+      `__init__`) is the live container, subscripts / loop and comprehension targets / `next(..)` of it are live scopes,
+      slices / `list(..)` / `reversed(..)` / `.copy()` of the container are fresh containers of live scopes, `.copy()` /
+      `set(..)` / `a - b` / `a.difference(b)` of a scope are fresh; locals are followed through reaching definitions.  A
+      violation is an augmented assignment to, a store / `del` through, or a mutating set / list method (bound or unbound)
+      on a live value, a call of a sibling method that does so, or a live value passed to a program function that does
+      (inlining bound 2).  Returning the live scope itself is not a violation (the listener only tests membership).
 R4 results propagate: `DependencyResolver.eval` walks the tree with the listener and merges `listener.deps`;
-   `resolve_dependencies` returns the deps of the engine it handed to `interpolate`; the member handlers test
+   `resolve_dependencies` returns the deps of the engine it handed to `interpolate` (directly, through a local temporary
+   every reaching definition of which is `engine.deps`, or as a `set(..)` / `.copy()` of it); the member handlers test
    the *receiver* (`singleExpression()`) against the tracked names and add the *member* (`identifierName()` /
    the string literal of `expressionSequence()`); the alias branch of the assignment handler adds the left name
    when the right name is tracked; every parameter of `resolve_dependencies` is read by an argument of the
@@ -44,13 +55,15 @@ neither pushes a scope nor shadows, so names are only ever over-approximated (a 
 arming it would fire on behaviour that satisfies the property.  It is printed as an observation.
 Not decided: optionality of grammar children (an accessor may return None when the child is optional -- the
 serialised ATN is not interpreted), aliasing through call arguments / return values, `with` statements.
+R3d does not see a mutation performed inside a nested function / lambda of a query, through an alias of `self`, through
+an unresolved (library) callee that receives a live scope, or by a caller on a live scope the query returns.
 """
 
 from __future__ import annotations
 
 import ast
 
-from ..dataflow import defs_of
+from ..dataflow import defs_of, reaching_defs
 from ..model import ancestors, dotted, enclosing_stmt, parent, unparse, walk_no_nested
 from ..selftest import V
 from ._util_G import calls_deep, guards_of, is_call_to
@@ -73,7 +86,8 @@ META = {
         "annotations and from the bodies of the generated accessors (getTypedRuleContext/getTypedRuleContexts/getToken) "
         "and every method call on a context is checked against the parser's class hierarchy; Optional helper results "
         "must be guarded before a dereference; the listener's handler set is compared with a frozen table of "
-        "name-binding grammar constructs; NamesStack push/pop pairing, removal robustness and alias/shadow separation; "
+        "name-binding grammar constructs; NamesStack push/pop pairing, removal robustness, alias/shadow separation and "
+        "read-only queries (may-alias analysis of the value-returning methods against the state bound in __init__); "
         "propagation of the collected set to resolve_dependencies' result; CFG dominance of the scope push over the "
         "shadow registrations; def-use flow of every resolve_dependencies parameter (expression library included) into the scan."
     ),
@@ -644,6 +658,37 @@ def r3(ctx):
         "which is true for names of outer scopes: `function f(){ x = q; }` after `x = inputs` crashes the analysis",
         witness=[f"callers: {[f'{unparse(c)}' for c in callers_guard_any_scope]}"],
     )
+    # d. the queries of NamesStack are read-only: the listener calls them from tests (`in self.names`,
+    #    `in self.names.global_names()`) any number of times between two scope changes
+    state = _state_attrs(ns)
+    ctx.require(bool(state), "C31.R3: NamesStack.__init__ binds no state attribute (self.stack)")
+    queries = []
+    for m in ns.methods.values():
+        if m.name == "__init__":
+            continue
+        if m.node.returns is not None:
+            is_query = not (isinstance(m.node.returns, ast.Constant) and m.node.returns.value is None)
+        else:
+            is_query = any(isinstance(n, ast.Return) and n.value is not None for n in m.body_nodes())
+        if is_query:
+            queries.append(m)
+    ctx.require(any(m.name == "global_names" for m in queries), "C31.R3: NamesStack.global_names is no longer a value-returning method")
+    for m in sorted(queries, key=lambda m: m.name):
+        muts = _mutations(p, m, state)
+        if not muts:
+            ctx.ob("R3", f"NamesStack.{m.name} (a query) does not change the scope stack", True, func=m, node=m.node, instance=f"query-pure:{m.name}")
+        for node, what, via in muts:
+            ctx.ob(
+                "R3",
+                f"NamesStack.{m.name} (a query) does not change the scope stack",
+                False,
+                func=m,
+                node=node,
+                instance=f"query-pure:{m.name}:{via}",
+                message=f"NamesStack.{m.name}: {what}; the listener evaluates {m.name}() inside its tests, so the first member access visited "
+                "inside a function whose parameter shadows a tracked name removes that name from the scope for good: every later "
+                "`inputs.x` of the expression yields no dependency",
+            )
     # c. alias vs shadow through the same operation
     gn = ns.methods.get("global_names")
     ctx.require(gn is not None, "C31.R3: NamesStack.global_names vanished")
@@ -680,11 +725,225 @@ def r3(ctx):
     )
 
 
+# --------------------------------------------------------------------------- R3d: queries of NamesStack are read-only
+
+# kinds of a value inside a NamesStack method: LIVE = the state container itself (`self.stack`), VIEW = a fresh container
+# whose elements are the live scopes (slice, list(..), reversed(..), .copy() of the container), ELEM = one live scope
+LIVE, VIEW, ELEM = "live", "view", "elem"
+_SET_MUT = {"add", "remove", "discard", "pop", "clear", "update", "difference_update", "intersection_update",
+            "symmetric_difference_update", "__isub__", "__ior__", "__iand__", "__ixor__"}
+_SEQ_MUT = {"append", "extend", "insert", "remove", "pop", "clear", "sort", "reverse", "__iadd__", "__imul__", "__setitem__",
+            "__delitem__", "popitem", "setdefault", "appendleft", "popleft", "extendleft", "rotate"}
+_MUTATORS = _SET_MUT | _SEQ_MUT
+_VIEW_CALLS = {"reversed", "iter", "list", "tuple", "sorted", "islice", "deque"}
+_ELEM_CALLS = {"next", "min", "max"}
+
+
+def _state_attrs(cls_) -> set[str]:
+    """Attributes `self.X` bound by the constructor: the object's state."""
+    init = cls_.methods.get("__init__")
+    out: set[str] = set()
+    if init is not None:
+        for n in init.body_nodes():
+            if isinstance(n, ast.Attribute) and isinstance(n.ctx, ast.Store) and isinstance(n.value, ast.Name) and n.value.id == "self":
+                out.add(n.attr)
+    return out
+
+
+class _Alias:
+    """May-alias kinds of expressions in one function: which values are (parts of) the state of `self`.  Locals are
+    followed through their *reaching* definitions (so `names = self.stack[0]; names = names.copy(); names -= s` is
+    fresh at the `-=`), loop / comprehension targets take the element kind of what they iterate, conditional
+    expressions and `a or b` the union of their arms.  Copies of a scope (`.copy()`, `set(..)`, `a - b`, `a.difference(b)`,
+    any other call) are fresh."""
+
+    def __init__(self, f, state: set[str], seeds: dict | None = None):
+        self.f, self.state, self.seeds = f, state, seeds or {}
+
+    def kinds(self, e, use=None, depth: int = 6) -> set[str]:
+        f = self.f
+        if e is None or depth < 0:
+            return set()
+        use = use if use is not None else e
+        if isinstance(e, ast.Attribute):
+            if isinstance(e.value, ast.Name) and e.value.id == "self" and e.attr in self.state:
+                return {LIVE}
+            return set()
+        if isinstance(e, ast.Name):
+            out: set[str] = set()
+            for d in reaching_defs(f, e.id, use):
+                if d.kind == "param":
+                    out |= set(self.seeds.get(e.id, ()))
+                elif d.kind in ("assign", "walrus"):
+                    k = self.kinds(d.value, d.value, depth - 1)
+                    out |= k if d.index is None else self._element(d.value, d.index, depth - 1)
+                elif d.kind in ("for", "comp"):
+                    out |= self._element(d.value, d.index, depth - 1)
+            return out
+        if isinstance(e, ast.Subscript):
+            k = self.kinds(e.value, use, depth - 1)
+            if k & {LIVE, VIEW}:
+                return {VIEW} if isinstance(e.slice, ast.Slice) else {ELEM}
+            return set()
+        if isinstance(e, ast.IfExp):
+            return self.kinds(e.body, use, depth - 1) | self.kinds(e.orelse, use, depth - 1)
+        if isinstance(e, ast.BoolOp):
+            return set().union(*[self.kinds(v, use, depth - 1) for v in e.values])
+        if isinstance(e, (ast.NamedExpr, ast.Starred)):
+            return self.kinds(e.value, use, depth - 1)
+        if isinstance(e, (ast.ListComp, ast.GeneratorExp)):
+            return {VIEW} if ELEM in self.kinds(e.elt, e.elt, depth - 1) else set()
+        if isinstance(e, (ast.List, ast.Tuple)):
+            return {VIEW} if any(ELEM in self.kinds(x, use, depth - 1) for x in e.elts) else set()
+        if isinstance(e, ast.Call):
+            fn = e.func
+            name = fn.id if isinstance(fn, ast.Name) else fn.attr if isinstance(fn, ast.Attribute) else ""
+            a0 = self.kinds(e.args[0], use, depth - 1) if e.args else set()
+            if name == "getattr" and len(e.args) >= 2 and isinstance(e.args[0], ast.Name) and e.args[0].id == "self" \
+                    and isinstance(e.args[1], ast.Constant) and e.args[1].value in self.state:
+                return {LIVE}
+            if name in _VIEW_CALLS and a0 & {LIVE, VIEW} and not (isinstance(fn, ast.Attribute) and self.kinds(fn.value, use, depth - 1)):
+                return {VIEW}
+            if name in _ELEM_CALLS and a0 & {LIVE, VIEW}:
+                return {ELEM}
+            if isinstance(fn, ast.Attribute):
+                r = self.kinds(fn.value, use, depth - 1)
+                if r & {LIVE, VIEW}:
+                    if name in ("copy", "__copy__"):
+                        return {VIEW}
+                    if name in ("pop", "__getitem__", "popleft"):
+                        return {ELEM}
+            return set()
+        return set()
+
+    def _element(self, it, index, depth: int) -> set[str]:
+        """Kinds of one element of iterable / unpacked value `it` (position `index` of a tuple target)."""
+        if isinstance(it, ast.Call) and isinstance(it.func, ast.Name) and it.func.id in ("enumerate", "zip"):
+            if index is None:
+                return set()
+            if it.func.id == "enumerate":
+                return self._element(it.args[0], None, depth - 1) if index == 1 and it.args else set()
+            return self._element(it.args[index], None, depth - 1) if index < len(it.args) else set()
+        if isinstance(it, (ast.Tuple, ast.List)) and index is not None and index < len(it.elts) and not any(isinstance(x, ast.Starred) for x in it.elts):
+            return self.kinds(it.elts[index], it.elts[index], depth - 1)
+        return {ELEM} if self.kinds(it, it, depth - 1) & {LIVE, VIEW} else set()
+
+
+def _mutations(p, f, state: set[str], seeds: dict | None = None, depth: int = 2, _stack: tuple = ()) -> list:
+    """[(node, what, via)] constructs of `f` that change the state of `self` (`self.<state attr>`, or an element of it) in
+    place: augmented assignment to an alias, store / delete through an alias, a mutating set / list method on an alias
+    (bound, or unbound as `set.update(alias, ..)` / `operator.isub(alias, ..)`), a call of a method of the same class that
+    does one of these, or an alias handed to a program function that does (inlining bound `depth`)."""
+    al = _Alias(f, state, seeds)
+    out = []
+    for n in f.body_nodes():
+        if isinstance(n, ast.AugAssign):
+            k = al.kinds(n.target, n)
+            if k & {LIVE, ELEM}:
+                out.append((n, f"`{unparse(n)}` updates {_origin(al, n.target, n)} in place", "augassign:" + type(n.op).__name__))
+        elif isinstance(n, (ast.Subscript, ast.Attribute)) and isinstance(n.ctx, (ast.Store, ast.Del)) and not isinstance(parent(n), ast.AugAssign):
+            st = enclosing_stmt(n)
+            if isinstance(n, ast.Attribute):
+                hit = isinstance(n.value, ast.Name) and n.value.id == "self" and n.attr in state
+            else:
+                hit = bool(al.kinds(n.value, n) & {LIVE, ELEM})
+            if hit:
+                out.append((st, f"`{unparse(st)[:70]}` rebinds / deletes part of the state through `{unparse(n)}`", "store:" + type(n).__name__))
+        elif isinstance(n, ast.Call):
+            fn = n.func
+            if isinstance(fn, ast.Attribute) and fn.attr in _MUTATORS:
+                if al.kinds(fn.value, n) & {LIVE, ELEM}:
+                    out.append((n, f"`{unparse(n)[:70]}` calls the mutating method `{fn.attr}` on {_origin(al, fn.value, n)}", "call:" + fn.attr))
+                    continue
+                if isinstance(fn.value, ast.Name) and fn.value.id in ("set", "list", "dict", "deque") and n.args and al.kinds(n.args[0], n) & {LIVE, ELEM}:
+                    out.append((n, f"`{unparse(n)[:70]}` applies `{fn.value.id}.{fn.attr}` to {_origin(al, n.args[0], n)}", "call:" + fn.attr))
+                    continue
+            d = dotted(fn) or ""
+            if d.startswith("operator.i") and n.args and al.kinds(n.args[0], n) & {LIVE, ELEM}:
+                out.append((n, f"`{unparse(n)[:70]}` updates {_origin(al, n.args[0], n)} in place", "call:" + d))
+                continue
+            if depth <= 0:
+                continue
+            for q in p.resolve_call(f, n, fanout=False):
+                g = p.functions.get(q)
+                if g is None or g is f or q in _stack:
+                    continue
+                same_obj = g.cls is not None and f.cls is not None and isinstance(fn, ast.Attribute) and isinstance(fn.value, ast.Name) \
+                    and fn.value.id == "self" and g.cls.qualname in p.mro(f.cls.qualname)
+                prm = list(g.params)
+                if g.cls is not None and isinstance(fn, ast.Attribute) and prm and not any((dotted(x) or "") == "staticmethod" for x in g.decorators):
+                    prm = prm[1:]
+                sd = {}
+                for i, a in enumerate(n.args):
+                    if i < len(prm) and not isinstance(a, ast.Starred):
+                        k = al.kinds(a, n)
+                        if k:
+                            sd[prm[i]] = k
+                for kw in n.keywords:
+                    if kw.arg:
+                        k = al.kinds(kw.value, n)
+                        if k:
+                            sd[kw.arg] = k
+                if not same_obj and not sd:
+                    continue
+                inner = _mutations(p, g, state if same_obj else set(), sd, depth - 1, _stack + (f.qualname,))
+                if inner:
+                    out.append((n, f"`{unparse(n)[:70]}` calls {g.qualname}, where {inner[0][1]}", "via:" + g.name))
+    return out
+
+
+def _origin(al: "_Alias", e, use) -> str:
+    k = al.kinds(e, use)
+    what = "the live state container" if LIVE in k else "a live scope of the stack"
+    if isinstance(e, ast.Name):
+        srcs = sorted({unparse(d.value)[:40] for d in reaching_defs(al.f, e.id, use) if d.kind in ("assign", "walrus", "for", "comp") and d.value is not None
+                       and (al.kinds(d.value, d.value) or d.kind in ("for", "comp"))})
+        return f"`{e.id}`, {what} (bound from {', '.join('`' + s + '`' for s in srcs) or 'a parameter'})"
+    return f"`{unparse(e)}`, {what}"
+
+
 # --------------------------------------------------------------------------- R4
 
 
 def _accessors_in(f, expr) -> set[str]:
     return {c.func.attr for c in calls_deep(f, expr) if isinstance(c.func, ast.Attribute) and isinstance(c.func.value, ast.Name) and c.func.value.id == "ctx"}
+
+
+def _denotes_obj(f, expr, use, src_stmt, depth: int = 4) -> bool:
+    """`expr` (evaluated at `use`) is the object bound by the assignment `src_stmt`: the assigned name itself or a local
+    alias of it, every reaching definition of which is that assignment / a plain copy of such a name."""
+    if depth < 0 or not isinstance(expr, ast.Name):
+        return False
+    ds = reaching_defs(f, expr.id, use)
+    return bool(ds) and all(
+        d.kind in ("assign", "walrus") and d.index is None and (d.stmt is src_stmt or _denotes_obj(f, d.value, d.value, src_stmt, depth - 1))
+        for d in ds
+    )
+
+
+def _denotes_attr(f, expr, use, src_stmt, attr: str, depth: int = 4) -> bool:
+    """The value of `expr` at `use` is `<object of src_stmt>.<attr>` on every path: the attribute itself, a local
+    temporary all of whose reaching definitions are such a value (`res = engine.deps; return res`), a value-preserving
+    copy (`set(x)`, `x.copy()`), or a conditional expression both arms of which are."""
+    if depth < 0 or expr is None:
+        return False
+    if isinstance(expr, ast.Attribute):
+        return expr.attr == attr and _denotes_obj(f, expr.value, use, src_stmt)
+    if isinstance(expr, ast.Name):
+        ds = reaching_defs(f, expr.id, use)
+        return bool(ds) and all(
+            d.kind in ("assign", "walrus") and d.index is None and _denotes_attr(f, d.value, d.value, src_stmt, attr, depth - 1) for d in ds
+        )
+    if isinstance(expr, ast.NamedExpr):
+        return _denotes_attr(f, expr.value, use, src_stmt, attr, depth - 1)
+    if isinstance(expr, ast.IfExp):
+        return _denotes_attr(f, expr.body, use, src_stmt, attr, depth - 1) and _denotes_attr(f, expr.orelse, use, src_stmt, attr, depth - 1)
+    if isinstance(expr, ast.Call) and not expr.keywords:
+        if isinstance(expr.func, ast.Name) and expr.func.id == "set" and len(expr.args) == 1:
+            return _denotes_attr(f, expr.args[0], use, src_stmt, attr, depth - 1)
+        if isinstance(expr.func, ast.Attribute) and expr.func.attr == "copy" and not expr.args:
+            return _denotes_attr(f, expr.func.value, use, src_stmt, attr, depth - 1)
+    return False
 
 
 def r4(ctx):
@@ -759,7 +1018,7 @@ def r4(ctx):
     ctx.require(len(eng) == 1, "C31.R4: resolve_dependencies no longer builds one DependencyResolver")
     ev = eng[0].targets[0].id
     handed = any(any(k.arg == "js_engine" and isinstance(k.value, ast.Name) and k.value.id == ev for k in c.keywords) for c in f.calls())
-    returned = any(isinstance(n, ast.Return) and n.value is not None and unparse(n.value) == f"{ev}.deps" for n in f.body_nodes())
+    returned = any(isinstance(n, ast.Return) and n.value is not None and _denotes_attr(f, n.value, n.value, eng[0], "deps") for n in f.body_nodes())
     ctx.ob("R4", "resolve_dependencies returns the deps of the engine handed to interpolate", handed and returned, func=f, node=f.node,
            instance="resolve_dependencies:result")
     # every parameter a caller supplies reaches the scan: the interpolate call that receives the engine, or the
@@ -800,7 +1059,7 @@ def r4(ctx):
 
 
 RULES = [("R1", r1), ("R2", r2), ("R3", r3), ("R4", r4)]
-FLOORS = {"R1": 14, "R2": 5, "R3": 5, "R4": 13}
+FLOORS = {"R1": 14, "R2": 5, "R3": 7, "R4": 13}
 
 VARIANTS = [
     # ---- breaking (today's tree already violates R1/R2/R3: each variant must add a finding)
@@ -862,6 +1121,26 @@ VARIANTS = [
       "elif isinstance(right, ECMAScriptParser.SingleExpressionContext) and self._get_name(left) in self.names:\n                self.names.add_name(left_name)", "R4"),
     V("Optional result dereferenced under the negated test", FILE, f"{LISTENER}.enterAssignmentExpression", "if left_name:\n            if left_name in self.names:",
       "if not left_name:\n            if left_name.strip() in self.names:", "R1"),
+    # seeded C31-mut1: global_names() works on the live global scope instead of a copy
+    V("global scope subtracted in place (no copy + `-=`)", UFILE, f"{NAMES}.global_names", "names = self.stack[0].copy()\n    if len(self.stack) > 1:\n        for scope in self.stack[1:]:\n            names = names.difference(scope)",
+      "names = self.stack[0]\n    for scope in self.stack[1:]:\n        names -= scope", "R3"),
+    V("global scope subtracted with difference_update", UFILE, f"{NAMES}.global_names", "names = self.stack[0].copy()\n    if len(self.stack) > 1:\n        for scope in self.stack[1:]:\n            names = names.difference(scope)",
+      "names = self.stack[0]\n    if len(self.stack) > 1:\n        for scope in self.stack[1:]:\n            names.difference_update(scope)", "R3"),
+    V("global scope subtracted with the unbound set method", UFILE, f"{NAMES}.global_names", "names = self.stack[0].copy()\n    if len(self.stack) > 1:\n        for scope in self.stack[1:]:\n            names = names.difference(scope)",
+      "names = self.stack[0]\n    for scope in self.stack[1:]:\n        set.difference_update(names, scope)", "R3"),
+    V("stack element updated through a subscript", UFILE, f"{NAMES}.global_names", "names = names.difference(scope)",
+      "self.stack[0] -= scope\n            names = self.stack[0]", "R3"),
+    V("global scope reached through a reversed view and a conditional alias", UFILE, f"{NAMES}.global_names", "names = self.stack[0].copy()\n    if len(self.stack) > 1:\n        for scope in self.stack[1:]:\n            names = names.difference(scope)",
+      "scopes = list(self.stack)\n    names = scopes[0] if scopes else set()\n    for scope in scopes[1:]:\n        names -= scope", "R3"),
+    V("membership test removes the name it finds", UFILE, f"{NAMES}.__contains__", "if name in scope:\n            return True",
+      "if name in scope:\n            scope.discard(name)\n            return True", "R3"),
+    V("query pops the innermost scope through a sibling method", UFILE, f"{NAMES}.global_names", "return names", "self.delete_scope()\n    return names", "R3"),
+    V("query truncates the stack", UFILE, f"{NAMES}.global_names", "return names", "del self.stack[1:]\n    return names", "R3"),
+    # tempret shape of resolve_dependencies: the temporary must still be the engine's deps when it is returned
+    V("returned temporary overwritten with a fresh set", CUFILE, f"{CWLUTILS}.resolve_dependencies", "return engine.deps",
+      "_sf_ret = engine.deps\n        _sf_ret = set()\n        return _sf_ret", "R4"),
+    V("returned temporary is another attribute of the engine", CUFILE, f"{CWLUTILS}.resolve_dependencies", "return engine.deps",
+      "_sf_ret = engine.context_key\n        return _sf_ret", "R4"),
     # ---- benign
     V("benign: parameter list fetched before the scope push", FILE, f"{LISTENER}.enterFunctionDeclaration",
       "self.names.add_scope()\n    parameters = ctx.formalParameterList()", "parameters = ctx.formalParameterList()\n    self.names.add_scope()", None),
@@ -898,4 +1177,19 @@ VARIANTS = [
       "if left_name:\n            if left_name in self.names:", "if not left_name:\n            return\n        if True:\n            if left_name.strip() in self.names:", None),
     V("benign: debug logging in the dot handler", FILE, f"{LISTENER}.enterMemberDotExpression", "if (dep := self._get_name(ctx.identifierName())):",
       "print('member access')\n        if (dep := self._get_name(ctx.identifierName())):", None),
+    # mechanical `tempret` of streamflow/cwl/utils.py: return <expr> -> _sf_ret = <expr>; return _sf_ret
+    V("benign: engine deps returned through a temporary (tempret)", CUFILE, f"{CWLUTILS}.resolve_dependencies", "return engine.deps",
+      "_sf_ret = engine.deps\n        return _sf_ret", None),
+    V("benign: engine alias, deps copied into the result", CUFILE, f"{CWLUTILS}.resolve_dependencies", "return engine.deps",
+      "resolver = engine\n        found = set(resolver.deps)\n        return found", None),
+    # each half of seeded C31-mut1 alone leaves the scope stack untouched
+    V("benign: in-place subtraction on the copy", UFILE, f"{NAMES}.global_names", "names = names.difference(scope)", "names -= scope", None),
+    V("benign: no copy but a new set per subtraction", UFILE, f"{NAMES}.global_names", "names = self.stack[0].copy()\n    if len(self.stack) > 1:\n        for scope in self.stack[1:]:\n            names = names.difference(scope)",
+      "names = self.stack[0]\n    for scope in self.stack[1:]:\n        names = names - scope", None),
+    V("benign: copy made with set(), difference_update on it", UFILE, f"{NAMES}.global_names", "names = self.stack[0].copy()\n    if len(self.stack) > 1:\n        for scope in self.stack[1:]:\n            names = names.difference(scope)",
+      "names = set(self.stack[0])\n    for inner in self.stack[1:]:\n        names.difference_update(inner)", None),
+    V("benign: alias re-bound to a copy before the in-place update", UFILE, f"{NAMES}.global_names", "names = self.stack[0].copy()\n    if len(self.stack) > 1:\n        for scope in self.stack[1:]:\n            names = names.difference(scope)",
+      "names = self.stack[0]\n    names = names.copy()\n    for scope in self.stack[1:]:\n        names -= scope", None),
+    V("benign: a slice of the stack is reordered", UFILE, f"{NAMES}.global_names", "for scope in self.stack[1:]:",
+      "inner = self.stack[1:]\n        inner.reverse()\n        for scope in inner:", None),
 ]
